@@ -85,7 +85,10 @@ def random_game(rng, n, acyclic=False, nonabs=False, **kw):
             tl.append([(p if p != 1.0 or rng.random() < 0.5 else 1, t) for p, t in zip(ps, tg)])
         else:
             k = rng.randint(1, 3)
-            tl.append([(LABELS[i], rng.choice(higher)) for i in range(k)])
+            ts = [(LABELS[i], rng.choice(higher)) for i in range(k)]
+            if kw.get('selfloops') and rng.random() < 0.4:       # a player may also wait where it is (only for the reachability phase:
+                ts.insert(rng.randrange(len(ts) + 1), ("wait", s))    # with a waiting Player 2 the game is not stopping)
+            tl.append(ts)
         players.append(pl)
     rewards = [0 if s in absorbing else rng.choice([0, 0, 1, 2, 3, 0.5]) for s in range(n)]
     fl = list(finals) + ([nonabs_final] if nonabs_final is not None else [])
@@ -163,7 +166,7 @@ def gen_games(rng, count, nmax=6, nonabs=False, slow=True, **kw):
             yield copy.deepcopy(g)
     for i in range(count):
         n = rng.randint(3, nmax)
-        yield random_game(rng, n, acyclic=(i % 3 == 0), nonabs=nonabs)
+        yield random_game(rng, n, acyclic=(i % 3 == 0), nonabs=nonabs, **kw)
 
 
 # ------------------------------------------------------------------ reference definitions
